@@ -1,6 +1,8 @@
 // native replay for C11 / C03: two REAL Nodes.  S stores a payload; R imports the replica.
 //   roundtrip : R.receive_chunk(manifest, ciphertext) returns exactly the payload, S.fetch_chunk too
 //   tamper    : a flipped ciphertext bit / a manifest with another content hash must be refused and leave R untouched
+//   republish : storing the same chunk id again (new key) must leave the node able to return the NEW payload; re-registering a
+//               manifest with a shorter lifetime must not keep the older, longer share deadline
 //   ttl       : state R derives from a manifest expires no later than the manifest (and never later than max TTL);
 //               expired manifests and manifests with less than min TTL left are refused without state change
 // exit 1 = the property is violated on the real code.
@@ -48,6 +50,19 @@ int main(int argc, char** argv) {
         const auto got = R4.receive_chunk(protocol::encode_manifest(m2), record->data);
         bool stored = false; for (const auto& e : R4.stored_chunks()) if (e.id == chunk) stored = true;
         if (got.has_value() || stored) { std::printf("REPRODUCED: a replica that does not hash to the manifest's content hash was accepted\n"); return 1; }
+    }
+    if (scenario == "all" || scenario == "republish") {
+        Node S2(ids, cs);
+        const ChunkData first{'f', 'i', 'r', 's', 't', ' ', 'v', 'e', 'r', 's', 'i', 'o', 'n', 9, 9};
+        const ChunkData second{'s', 'e', 'c', 'o', 'n', 'd', ' ', 'o', 'n', 'e', 7, 7, 7, 7, 7};
+        (void)S2.store_chunk(chunk, first, seconds(600), std::string("a.bin"));
+        (void)S2.store_chunk(chunk, second, seconds(120), std::string("a.bin"));
+        const auto back = S2.fetch_chunk(chunk);
+        if (!back.has_value() || *back != second) { std::printf("REPRODUCED: after storing the chunk id a second time the node no longer returns the stored payload (the share record kept the first key)\n"); return 1; }
+        const auto key = chunk_id_to_string(chunk);
+        const auto it = S2.dht_.shard_table_.find(key);
+        if (it != S2.dht_.shard_table_.end() && duration<double>(it->second.expires_at - steady_clock::now()).count() > 125.0) {
+            std::printf("REPRODUCED: the share record published with a 120 s TTL keeps an older deadline %.0f s away\n", duration<double>(it->second.expires_at - steady_clock::now()).count()); return 1; }
     }
     if (scenario == "all" || scenario == "ttl") {
         struct { long expires_in; bool expect_ok; } cases[] = {{50, true}, {3000, true}, {864000, true}, {5, false}, {29, false}, {-10, false}, {0, false}};
